@@ -276,4 +276,8 @@ let dt_handler (args : string list) : string =
 let () =
   register "RT" rt_handler;
   register "DT" dt_handler;
+  (* AIT <elem> <hex> [pos] / MIT <k> <v> <hex> [pos]: the context-free typed iterators, collected: the model of `DT seq(elem)` /
+     `DT bmap(k,v)` (the built-in impls collect the `_with` twins of the same iterators) *)
+  register "AIT" (fun args -> match args with e :: rest -> dt_handler (("seq(" ^ e ^ ")") :: rest) | _ -> "?bad-AIT");
+  register "MIT" (fun args -> match args with k :: v :: rest -> dt_handler (("bmap(" ^ k ^ "," ^ v ^ ")") :: rest) | _ -> "?bad-MIT");
   register "PFX" pfx_handler
